@@ -21,7 +21,7 @@ import json, os, re, shutil, subprocess, sys, time, glob
 pid = sys.argv[1]
 secs = int(sys.argv[2]) if len(sys.argv) > 2 else int(os.environ.get("VCHECK_FUZZ_SECS", "600"))
 b = pid.lower()
-H = "/verif/harness"
+H = os.environ.get("VCHECK_HARNESS") or "/verif/harness"  # (override: development copies only)
 F = H + "/fuzz"
 seed = os.environ.get("VERIF_SEED", "1")
 try:
